@@ -202,8 +202,10 @@ def step (s : PState) : Tok → Except PErr PState
     if s.prev = .operand ∨ s.prev = .rparen then .error .token
     else .ok (pushOperand s (.operand k text))
   | .opr name =>
-    -- a percent sign needs its operand (`fix:` commit): otherwise `TokenError`
-    if name = "%" ∧ ¬ (s.prev = .operand ∨ s.prev = .rparen ∨ s.prev = .percent) then .error .token
+    -- a percent sign or a binary operator needs its (left) operand (`fix:` commits): otherwise `TokenError`;
+    -- `+` and `-` become signs instead, the range operators are not checked here
+    if (name ≠ "+" ∧ name ≠ "-" ∧ name ≠ " " ∧ name ≠ "," ∧ name ≠ ":") ∧
+        ¬ (s.prev = .operand ∨ s.prev = .rparen ∨ s.prev = .percent) then .error .token
     else oprStep s name
   | .isect => oprStep s " "
   | .sep =>
